@@ -135,6 +135,29 @@ StrTrue  == <<116, 114, 117, 101>>
 StrFalse == <<102, 97, 108, 115, 101>>
 StrNull  == <<110, 117, 108, 108>>
 
+\* lexicographic order on code-point sequences (= UTF-8 byte order)
+RECURSIVE SeqLess(_, _)
+SeqLess(a, b) ==
+  IF Len(b) = 0 THEN FALSE
+  ELSE IF Len(a) = 0 THEN TRUE
+  ELSE IF a[1] # b[1] THEN a[1] < b[1]
+  ELSE SeqLess(Tail(a), Tail(b))
+
+\* printed form of a hash key (keys are integers, floats or strings)
+KeyPrint(k) == CASE Tag(k) = "I" -> IntDigits(k[2]) [] Tag(k) = "F" -> FloatDigits(k[2], k[3])
+                 [] Tag(k) = "S" -> k[2] [] OTHER -> NoPrint
+
+\* hash entries are ordered by the printed form of their keys; between keys which print
+\* alike (1, 1.0, "1") the order is not specified
+RECURSIVE InsertPair(_, _), SortPairs(_)
+InsertPair(p, sorted) ==
+  IF Len(sorted) = 0 THEN <<p>>
+  ELSE IF SeqLess(KeyPrint(p[1]), KeyPrint(sorted[1][1])) THEN <<p>> \o sorted
+  ELSE <<sorted[1]>> \o InsertPair(p, Tail(sorted))
+SortPairs(ps) == IF Len(ps) = 0 THEN <<>> ELSE InsertPair(ps[Len(ps)], SortPairs(SubSeq(ps, 1, Len(ps) - 1)))
+PairOrderDefined(ps) == /\ \A i \in 1..Len(ps) : KeyPrint(ps[i][1]) # NoPrint
+                        /\ \A i \in 1..Len(ps), j \in 1..Len(ps) : i # j => KeyPrint(ps[i][1]) # KeyPrint(ps[j][1])
+
 RECURSIVE Inspect(_), JoinInspect(_, _), PairsInspect(_, _)
 Inspect(v) ==
   CASE IsInt(v)  -> IntDigits(v[2])
@@ -145,8 +168,9 @@ Inspect(v) ==
     [] IsRe(v)   -> NoPrint
     [] IsArr(v)  -> LET body == JoinInspect(v[2], 1) IN
                     IF body = NoPrint THEN NoPrint ELSE <<91>> \o body \o <<93>>
-    [] IsHash(v) -> LET body == PairsInspect(v[2], 1) IN
-                    IF body = NoPrint THEN NoPrint ELSE <<123>> \o body \o <<125>>
+    [] IsHash(v) -> IF ~PairOrderDefined(v[2]) THEN NoPrint
+                    ELSE LET body == PairsInspect(SortPairs(v[2]), 1) IN
+                         IF body = NoPrint THEN NoPrint ELSE <<123>> \o body \o <<125>>
     [] OTHER     -> NoPrint
 JoinInspect(es, i) ==
   IF i > Len(es) THEN <<>>
@@ -162,14 +186,6 @@ PairsInspect(ps, i) ==
 (***************************************************************************)
 (* Orders.                                                                 *)
 (***************************************************************************)
-\* lexicographic order on code-point sequences (= UTF-8 byte order)
-RECURSIVE SeqLess(_, _)
-SeqLess(a, b) ==
-  IF Len(b) = 0 THEN FALSE
-  ELSE IF Len(a) = 0 THEN TRUE
-  ELSE IF a[1] # b[1] THEN a[1] < b[1]
-  ELSE SeqLess(Tail(a), Tail(b))
-
 \* numeric order on I/F values by cross multiplication (guarded by the caller)
 NumLess(a, b)  == Num(a) * Den(b) < Num(b) * Den(a)
 NumEq(a, b)    == Num(a) * Den(b) = Num(b) * Den(a)
